@@ -305,6 +305,11 @@ func (e *c03env) check(final bool) {
 				} else if cur != nil && x != 0 && e.f.err == nil {
 					e.violate("unpersisted-after-quiescence:"+e.cause(i), fmt.Sprintf("counter %q: file is open and all calls returned but %d remain only in memory", vfTrunc40(e.names[i]), x))
 				}
+			} else if hi == 0 && lo < 1<<33-1 {
+				// no-wrap clause: every single step either adds its full amount or leaves the
+				// pending field at 2^33-1 / the cell at 2^64-1, so once the increments have
+				// reached the pending limit the total can never be below it again
+				e.violate("wrapped:"+e.cause(i), fmt.Sprintf("counter %q: increments begun sum to %d (hi %d), at or beyond the pending limit 2^33-1, but after quiescence persisted %d + pending %d is below that limit: an amount wrapped instead of sticking", vfTrunc40(e.names[i]), e.begunLo[i], e.begunHi[i], plo, x))
 			}
 		}
 	}
